@@ -254,7 +254,7 @@ mutual
     | .int true v => decide (INT64_MIN ≤ v) && decide (v ≤ INT64_MAX)
     | .int false v => decide (0 ≤ v) && decide (v ≤ UINT64_MAX)
     | .dbl bits none => !isNaN bits && !isInf bits && g17Shape (fmt bits)
-    | .dbl _ (some t) => (dblTokenOfText t).isSome && decide (t.length ≤ Generated.intMax)
+    | .dbl bits (some t) => !isNaN bits && !isInf bits && (dblTokenOfText t).isSome && decide (t.length ≤ Generated.intMax)
     | .str _ => true
     | .arr xs => treeOkList xs
     | .obj kvs => treeOkMembers kvs && keysNodup (keysOf kvs)
